@@ -606,8 +606,15 @@ func (x *Exec) instr(fr *frame, s *State, in ssa.Instruction) {
 			*s = *m
 		}
 	case *ssa.Send:
+		x.atSend(fr, s, x.operand(fr, s, in.X), in.Pos())
 		x.C.Abstracted["channel send (no blocking semantics)"]++
 	case *ssa.Select:
+		for _, st := range in.States {
+			if st.Dir == types.SendOnly && st.Send != nil {
+				x.atSend(fr, s, x.operand(fr, s, st.Send), in.Pos())
+				break
+			}
+		}
 		x.C.Abstracted["select (havoc of outcome)"]++
 		x.setVal(fr, in, x.freshValue(s, "select", in.Type()))
 	case *ssa.Range:
@@ -1676,4 +1683,21 @@ func readsOnly(fn *ssa.Function, mc *ssa.MakeClosure, v ssa.Value, depth int) bo
 		}
 	}
 	return true
+}
+
+// atSend checks the "atsend" region postconditions of the unit's contract with
+// the value about to be sent bound to the name "sent".
+func (x *Exec) atSend(fr *frame, s *State, sent Value, pos token.Pos) {
+	if fr.contract == nil {
+		return
+	}
+	for k, ac := range fr.contract.AtCalls {
+		if ac.Callee != "<send>" {
+			continue
+		}
+		env := x.invEnv(fr, s).with("sent", sent)
+		ac.Hits++
+		x.obligeKnown(env, fmt.Sprintf("%s#atsend%d.%d", x.C.Unit, k, x.bump(fr, fmt.Sprintf("atsend%d", k))), "atsend",
+			x.pos(pos), "before the send: "+ac.Text, s.Reach, env.evalBool(ac.Expr))
+	}
 }
